@@ -416,7 +416,11 @@ macro_rules! float_ctor_mod {
                                 let exp = {
                                     let (a, b, m, k) = (mn as f64, mx as f64, mo as f64, sh as f64);
                                     let fin = a.is_finite() && b.is_finite() && m.is_finite() && k.is_finite() && (b - a).is_finite();
-                                    if !(fin && b > a && k > 0.0) {
+                                    if fin && b > a && k < 0.0 {
+                                        // a negative shape is documented as ShapeTooSmall whatever the mean; the mode implied by
+                                        // the relation may in addition fall outside the range
+                                        Expect { spec: true, allowed: vec!["ShapeTooSmall", "ModeRange"] }
+                                    } else if !(fin && b > a && k > 0.0) {
                                         Expect::unspecified()
                                     } else {
                                         let mode = ((k + 2.0) * m - a - b) / k;
